@@ -142,13 +142,26 @@ fn gen_system(rng: &mut ChaCha8Rng, quick: bool) -> System {
             // with the other filter when it is free (single-lookup systems only)
             if n_ctls == 1 {
                 looking.push(Side { table: 0, cols: if width == 2 { vec![2, 3] } else { vec![2] }, filter: 5 });
+                if rng.gen_bool(0.5) {
+                    // a third entry of table 0: an odd number of entries leaves a partial helper batch
+                    looking.push(Side { table: 0, cols: cols.clone(), filter: f });
+                }
             }
         }
         let looked = Side { table: looked_table, cols: cols.clone(), filter: f };
         // decide active looking rows, then place the same tuples on looked rows
         let mut tuples: Vec<Vec<u64>> = vec![];
-        for s in looking.iter() {
+        for (si, s) in looking.iter().enumerate() {
             let n = traces[s.table][0].len();
+            if looking[..si].iter().any(|p| p.table == s.table && p.filter == s.filter) {
+                // the same entry listed again: every active row contributes its tuple once more
+                for r in 0..n {
+                    if traces[s.table][s.filter][r] == 1 {
+                        tuples.push(s.cols.iter().map(|c| traces[s.table][*c][r]).collect());
+                    }
+                }
+                continue;
+            }
             for r in 0..n {
                 let active = rng.gen_bool(0.4);
                 traces[s.table][s.filter][r] = active as u64;
@@ -171,28 +184,35 @@ fn gen_system(rng: &mut ChaCha8Rng, quick: bool) -> System {
             }
         }
         let n_looked = traces[looked_table][0].len();
-        // not enough looked rows: deactivate surplus looking rows
-        while tuples.len() - ex.len().min(tuples.len()) > n_looked.saturating_sub(ex.len()) || tuples.len() > n_looked {
-            // drop the last active looking row
+        // not enough looked rows: deactivate looking rows until everything fits (tuples are recomputed
+        // from the traces, since one filter cell may serve several entries of the same table)
+        loop {
+            tuples.clear();
+            for s in looking.iter() {
+                let n = traces[s.table][0].len();
+                for r in 0..n {
+                    if traces[s.table][s.filter][r] == 1 {
+                        tuples.push(s.cols.iter().map(|c| traces[s.table][*c][r]).collect());
+                    }
+                }
+            }
+            tuples.extend(ex.iter().cloned());
+            if tuples.len() <= n_looked {
+                break;
+            }
             let mut dropped = false;
             'outer: for s in looking.iter().rev() {
                 let n = traces[s.table][0].len();
                 for r in (0..n).rev() {
                     if traces[s.table][s.filter][r] == 1 {
-                        let tup: Vec<u64> = s.cols.iter().map(|c| traces[s.table][*c][r]).collect();
                         traces[s.table][s.filter][r] = 0;
-                        if let Some(pos) = tuples.iter().position(|t| *t == tup) {
-                            tuples.remove(pos);
-                        }
                         dropped = true;
                         break 'outer;
                     }
                 }
             }
             if !dropped {
-                ex.clear();
-                tuples.truncate(n_looked);
-                break;
+                ex.pop();
             }
         }
         // place tuples on random distinct looked rows
@@ -243,8 +263,15 @@ fn start_challenger(caps: &[plonky2::hash::merkle_tree::MerkleCap<F, H>]) -> Cha
 }
 
 fn prove_system<const N: usize>(sys: &System, ctls: &[CrossTableLookup<F>], config: &StarkConfig, stark: &S) -> Result<Proved, String> {
+    prove_system_aux::<N>(sys, &sys.traces, ctls, config, stark)
+}
+
+/// `aux_traces`: the traces from which the cross-table running sums and helper columns are computed
+/// (a deviating prover may keep those of another trace than the committed one).
+fn prove_system_aux<const N: usize>(sys: &System, aux_traces: &[Vec<Vec<u64>>], ctls: &[CrossTableLookup<F>], config: &StarkConfig, stark: &S) -> Result<Proved, String> {
     let polys: Vec<Vec<PolynomialValues<F>>> = sys.traces.iter().map(|t| crate::stk::to_poly_values(t)).collect();
-    let arr: [Vec<PolynomialValues<F>>; N] = polys.clone().try_into().map_err(|_| "table count".to_string())?;
+    let aux_polys: Vec<Vec<PolynomialValues<F>>> = aux_traces.iter().map(|t| crate::stk::to_poly_values(t)).collect();
+    let arr: [Vec<PolynomialValues<F>>; N] = aux_polys.try_into().map_err(|_| "table count".to_string())?;
     let res = catch(|| {
         let commits: Vec<PolynomialBatch<F, C, D>> = polys.iter().map(|p| PolynomialBatch::<F, C, D>::from_values(p.clone(), config.fri_config.rate_bits, false, config.fri_config.cap_height, &mut TimingTree::default(), None)).collect();
         let caps: Vec<_> = commits.iter().map(|c| c.merkle_tree.cap.clone()).collect();
@@ -383,12 +410,12 @@ fn run_n<const N: usize>(mut sys: System, rng: &mut ChaCha8Rng, case: u64, quick
     }
     let proved = proved.unwrap();
     // ---- negatives on the traces ---------------------------------------------------------------
-    set_knobs(StarkProverKnobs { skip_constraint_check: true, lenient_truncation: true, aux_edits: vec![] });
+    set_knobs(StarkProverKnobs { skip_constraint_check: true, lenient_truncation: true, aux_edits: vec![], aux_trace: None });
     let reps = if quick { 1 } else { 2 };
     for _ in 0..reps {
         for ci in 0..sys.ctls.len() {
             let ctl = sys.ctls[ci].clone();
-            let sides: Vec<(&str, Side)> = vec![("looking", ctl.looking[rng.gen_range(0..ctl.looking.len())].clone()), ("looked", ctl.looked.clone())];
+            let sides: Vec<(&str, Side)> = vec![("looking", if rng.gen_bool(0.5) { ctl.looking[ctl.looking.len() - 1].clone() } else { ctl.looking[rng.gen_range(0..ctl.looking.len())].clone() }), ("looked", ctl.looked.clone())];
             for (sname, side) in sides {
                 let n = sys.traces[side.table][0].len();
                 // altered value on an active row (if any), else on any row
@@ -400,6 +427,19 @@ fn run_n<const N: usize>(mut sys: System, rng: &mut ChaCha8Rng, case: u64, quick
                 let v = !ctl_holds(&sys).is_empty();
                 let (out, _) = attempt::<N>(&sys, &ctls, &config, &stark);
                 judge(acc, &format!("{sname}_value_altered{}", if v { "" } else { ":benign(inactive row)" }), v, &out, &ctx, json!({"ctl": ci, "table": side.table, "row": row, "column": col}));
+                // the same alteration with the running sums / helper columns of the ORIGINAL traces
+                if v {
+                    let mut orig = sys.traces.clone();
+                    orig[side.table][col][row] = old;
+                    let out = match prove_system_aux::<N>(&sys, &orig, &ctls, &config, &stark) {
+                        Err(e) => Out::Refused(e),
+                        Ok(p) => match verify_system::<N>(&sys, &ctls, &config, &stark, &p.proofs) {
+                            Ok(()) => Out::Accepted,
+                            Err(e) => Out::Rejected(e),
+                        },
+                    };
+                    judge(acc, &format!("{sname}_value_altered+running_sums_of_the_original_traces"), true, &out, &ctx, json!({"ctl": ci, "table": side.table, "row": row, "column": col, "entries_of_this_table": ctl.looking.iter().filter(|s| s.table == side.table).count()}));
+                }
                 sys.traces[side.table][col][row] = old;
                 // filter flipped: one value more / one value less on this side
                 let row = rng.gen_range(0..n);
